@@ -19,6 +19,9 @@ def main(argv=None):
     for r in res:
         facts.extend(r.get("regex_facts", []))
     ck.extra["regex_facts_decided_by_relang"] = [dict(t) for t in {tuple(sorted(f.items())) for f in facts}]
+    if ck.tier == "thorough":
+        from vlib.runtime import run_monitor
+        run_monitor(ck, ("receiver.", "parser."))
     ck.trusted.extend([
         "pyvc VC generator and its Python-subset semantics (DESIGN.md section 3)",
         "SMT solvers cvc5 1.0.3 / z3 5.1.0 (an unsat answer is believed)",
